@@ -13,7 +13,10 @@ RULE = ("Schema specs x documents: valid-by-construction operations, the same af
         "Oracle: validate_ast returns without raising; when it reports no error, execution with generated accepted "
         "variables and a fault-free world raises nothing, the reference merge rule finds no ambiguous response key, "
         "and data equals the reference executor's (ordered). Non-trivial: a mutated or grammar-random document; "
-        "distinct = (schema, text). Mutated documents that still validate are counted separately.")
+        "distinct = (schema, text). Mutated documents that still validate are counted separately. Plus 45 fixed *deep* "
+        "documents (nested fields, inline fragments, fragment chains, list and object literals; 40 to 245 levels) over a "
+        "recursive schema: whatever the parser accepts, validate_ast returns; whatever it reports valid executes without "
+        "raising under both executors.")
 ASSUMPTIONS = [
     "Reference validator/merge rule (vlib/ref/validate.py) and reference executor (vlib/ref/exec.py) written from the June-2018 text.",
     "Documents using __schema/__type or an operation kind the schema has no root type for are only checked for 'validation does not raise'.",
